@@ -217,12 +217,41 @@ def from_sexpr(prog):
                 e2 = "no general Not arm"
             else:
                 e2 = match(AggV("Not", C("helper", VF(1, "Not", 0), P(2))), rest[0], ("new",))
+            # any further special case of the operand must still denote the negation of the operand
+            for k, t in inner.items():
+                if k == "Var" or (isinstance(k, tuple) and k[0] == "rest"):
+                    continue
+                e3 = match(AggV("Not", C("helper", VF(1, "Not", 0), P(2))), t, ("new",))
+                if e3 and k == "Not" and _is_double_neg_shortcut(t):
+                    e3 = None  # Not(Not e) ↦ helper(e) is the one sound shortcut
+                if e3:
+                    e2 = e2 or ("Not(%s ..) arm: %s" % (k, e3))
             err = e1 or e2
         else:
             err = match(AggV("Not", C("helper", VF(1, "Not", 0), P(2))), n, ("new",))
     out.append(inst("DP", key, VIOLATION if err else OK, fn, None,
                     err or "Not(Var s) ↦ Literal(map[s], false); Not(e) ↦ Not(helper(e))"))
     return out
+
+
+def _is_double_neg_shortcut(t):
+    """helper(<operand of the inner Not>, mapping)"""
+    t = strip(t)
+    if not mir.is_call(t, "helper") or len(t[2]) != 2:
+        return False
+    a = strip(t[2][0])
+    chain = []
+    while isinstance(a, tuple) and a:
+        if a[0] == "field" and isinstance(a[1], tuple) and a[1][0] == "as":
+            chain.append((a[1][2], a[2]))
+            a = strip(a[1][1])
+        elif a[0] in ("deref", "ref"):
+            a = strip(a[1])
+        elif a[0] == "call" and a[1].name in ("as_ref", "deref", "borrow") and a[2]:
+            a = strip(a[2][0])
+        else:
+            break
+    return a == ("param", 1) and chain == [("Not", "0"), ("Not", "0")]
 
 
 def wmc_homomorphism(prog):
